@@ -1,6 +1,9 @@
 use num::pow::Pow;
 
 use crate::generator::error::{GeneratorError, GeneratorErrorType};
+use crate::intermediate::constraints::{
+    Constraint, ElementOrSetOperation, ElementSetSpecs, SubtypeElements,
+};
 
 use super::{
     types::{BitString, Choice, Optionality, SequenceOrSet},
@@ -245,14 +248,23 @@ pub fn format_comments(comments: &str) -> String {
     }
 }
 
+/// A BIT STRING has a fixed size if its only constraint is `SIZE (n)` with a single,
+/// non-extensible size — or a single value, which has one size as well.
 pub fn is_fixed_size(bit_str: &BitString) -> bool {
-    bit_str.constraints.len() == 1
-        && bit_str
-            .constraints
-            .first()
-            .unwrap()
-            .unpack_as_strict_value()
-            .is_ok()
+    match bit_str.constraints.as_slice() {
+        [Constraint::Subtype(ElementSetSpecs {
+            set: ElementOrSetOperation::Element(SubtypeElements::SizeConstraint(size)),
+            extensible: false,
+        })] => matches!(
+            &**size,
+            ElementOrSetOperation::Element(SubtypeElements::SingleValue {
+                extensible: false,
+                ..
+            })
+        ),
+        [constraint] => constraint.unpack_as_strict_value().is_ok(),
+        _ => false,
+    }
 }
 
 #[cfg(test)]
